@@ -121,15 +121,18 @@ package op
 //@ define ksemi(k) spec.keySemi(note.letter(k.Name), kacc(k.Accidental))
 //@ define ksig(k) spec.signature(note.letter(k.Name), kacc(k.Accidental), k.Minor)
 // a ring of twelve members; member i holds exactly the supported keys of the mode at position i, each with its scale
-//@ define wfCircle(c, minor) len(c.r) == 12 && forall(i, 0, len(c.r), forall(k, Key, dom(c.r[i].scales, k) == (supported(k) && k.Minor == minor && cidx(k) == i)) && forall(k, Key, dom(c.r[i].scales, k) ==> c.r[i].scales[k] != nil && c.r[i].scales[k].Key == k))
+//@ define wfCircle(c, minor) len(c.r) == 12 && forall(i, 0, len(c.r), forall(k, Key, dom(c.r[i].scales, k) == (supported(k) && k.Minor == minor && cidx(k) == i)) && forall(k, Key, dom(c.r[i].scales, k) ==> c.r[i].scales[k] != nil && !fresh(c.r[i].scales[k]) && c.r[i].scales[k].Key == k) && exists(k, Key, dom(c.r[i].scales, k)))
+//@ define ptrsOK(m) forall(k, Key, dom(m.scales, k) ==> m.scales[k] != nil && m.scales[k].Key == k)
+//@ define nonEmpty(m) exists(k, Key, dom(m.scales, k))
+//@ define memberOK(m) ptrsOK(m) && nonEmpty(m)
 //@ define wfCOF(c) wfCircle(c.Majors, false) && wfCircle(c.Minors, true)
-//@ define memberIs(m, minor, i) forall(k, Key, dom(m.scales, k) == (supported(k) && k.Minor == minor && cidx(k) == i)) && forall(k, Key, dom(m.scales, k) ==> m.scales[k] != nil && m.scales[k].Key == k)
+//@ define memberIs(m, minor, i) forall(k, Key, dom(m.scales, k) == (supported(k) && k.Minor == minor && cidx(k) == i)) && forall(k, Key, dom(m.scales, k) ==> m.scales[k] != nil && m.scales[k].Key == k) && exists(k, Key, dom(m.scales, k))
 
 // Keys uses the iterator helpers maps.Keys / slices.Collect (outside the modelled subset): assumed.
 //@ func CircleMember.Keys returns (r)
 //@   trusted
 //@   allocs map[Key]bool
-//@   ensures r != nil && forall(k, Key, r[k] == dom(c.scales, k))
+//@   ensures r != nil && forall(k, Key, r[k] == dom(c.scales, k)) && forall(k, Key, dom(r, k) == dom(c.scales, k))
 
 //@ func Circle.Index returns (i, ok)
 //@   requires len(c.r) == 12
@@ -159,24 +162,28 @@ package op
 //@   enumerate key in keySignatures
 //@   requires wfCOF(c)
 //@   ensures (err == nil) == supported(key)
+//@   ensures err == nil ==> memberOK(m)
 //@   ensures err == nil ==> forall(k, Key, dom(m.scales, k) == (supported(k) && k.Minor == key.Minor && spec.fmod(ksemi(k) - ksemi(key) - 7, 12) == 0))
 
 //@ func CircleOfFifth.SubDominant returns (m, err)
 //@   enumerate key in keySignatures
 //@   requires wfCOF(c)
 //@   ensures (err == nil) == supported(key)
+//@   ensures err == nil ==> memberOK(m)
 //@   ensures err == nil ==> forall(k, Key, dom(m.scales, k) == (supported(k) && k.Minor == key.Minor && spec.fmod(ksemi(k) - ksemi(key) + 7, 12) == 0))
 
 //@ func CircleOfFifth.Relative returns (m, err)
 //@   enumerate key in keySignatures
 //@   requires wfCOF(c)
 //@   ensures (err == nil) == supported(key)
+//@   ensures err == nil ==> memberOK(m)
 //@   ensures err == nil ==> forall(k, Key, dom(m.scales, k) == (supported(k) && k.Minor == !key.Minor && spec.fmod(ksig(k) - ksig(key), 12) == 0))
 
 //@ func CircleOfFifth.Parallel returns (m, err)
 //@   enumerate key in keySignatures
 //@   requires wfCOF(c)
 //@   ensures (err == nil) == supported(key)
+//@   ensures err == nil ==> memberOK(m)
 //@   ensures err == nil ==> forall(k, Key, dom(m.scales, k) == (supported(k) && k.Minor == !key.Minor && spec.fmod(ksemi(k) - ksemi(key), 12) == 0))
 
 // an instance is acceptable when it has durations and, if it sets a key, the key has a scale
@@ -208,6 +215,7 @@ package op
 //@   requires wfCOF(c) && validConv(conv)
 //@   ensures (err == nil) == supported(key)
 //@   ensures err == nil ==> keysAt(m, key.Minor != flips(conv), ksemi(key) + shift(conv, key.Minor))
+//@   ensures err == nil ==> memberOK(m)
 
 // two steps compose; the result does not depend on the spelling mid the intermediate member is read by,
 // dominant and subdominant undo each other, relative and parallel undo themselves
@@ -339,4 +347,5 @@ package op
 //@   requires dom(m.scales, k) && m.scales[k] != nil && m.scales[k].Key == k
 //@   ensures cont == !supported(k)
 //@   ensures !cont ==> rErr == nil && keysAt(m, k.Minor != flips(x), ksemi(k) + shift(x, k.Minor))
+//@   ensures !cont ==> memberOK(m)
 //@   ensures cont ==> rErr != nil && m == old(m)
